@@ -402,7 +402,14 @@ impl<'p> Printer<'p> {
 
     pub fn print(&mut self, f: &F) -> String {
         let mut toks = Vec::new();
+        if self.maybe(1, 10) {
+            toks.push(Tok::Comment("leading comment: a | b".to_string()));
+        }
         self.emit(f, &mut toks);
+        if self.maybe(1, 6) {
+            // a comment may also close the text
+            toks.push(Tok::Comment("& trailing comment".to_string()));
+        }
         self.layout(&toks)
     }
 
